@@ -60,8 +60,38 @@ def insertion_near_frozen_cases(rng, n):
                              np_seed=rng.randint(0, 10 ** 6)), op="resolve", pre_ops=())
 
 
+def circular_failing_cases(rng, n):
+    """circular problems that cannot be solved: a forbidden site across the origin, sitting in frozen flanks (the frozen
+    segments listed first or last), plus random circular problems"""
+    from gen import hard
+    from props import C13
+    for i in range(n):
+        if i % 3 == 2:
+            yield dict(desc=C13.rand_case(rng), op="circ_resolve", pre_ops=())
+            continue
+        site = rng.choice(["GGTCTC", "CGTCTC", "GAATTC", "ACGT"])
+        k = len(site)
+        L = rng.randint(3 * k + 4, 60)
+        w = rng.randint(k - 1, k + 4)
+        seq = list(hard.rand_seq(rng, L))
+        j = rng.randint(1, k - 1)
+        seq[L - j:] = site[:j]
+        seq[:k - j] = site[j:]
+        cons = [dict(kind="keep", location=[0, w, rng.choice([0, 1])]), dict(kind="keep", location=[L - w, L, rng.choice([0, 1])])]
+        if rng.random() < 0.3:
+            cons.pop(rng.randint(0, 1))        # one flank only: often solvable by editing the other side
+        pat = dict(kind="pattern", pattern=site, location=None)
+        cons = cons + [pat] if rng.random() < 0.7 else [pat] + cons
+        if rng.random() < 0.4:
+            cons.append(problems.rand_soft(rng, "".join(seq), allow=["pattern", "gcwin"]))
+        yield dict(desc=dict(sequence="".join(seq), constraints=cons, objectives=[], settings=problems.rand_settings(rng),
+                             np_seed=rng.randint(0, 10 ** 6)), op="circ_resolve", pre_ops=())
+
+
 def base_cases(rng, n):
     for c in failing_direct_cases(rng, max(6, n // 5)):
+        yield c
+    for c in circular_failing_cases(rng, max(6, n // 5)):
         yield c
     for c in insertion_near_frozen_cases(rng, max(6, n // 6)):
         yield c
@@ -130,7 +160,7 @@ def with_faults(rng, bases, per_problem):
             continue
         n_eval = res[0]["info"]["n_eval"]
         cases.append(case)
-        if n_eval == 0:
+        if n_eval == 0 or case.get("no_faults"):
             continue
         if per_problem is None or n_eval <= per_problem:
             ks = list(range(n_eval))
